@@ -37,6 +37,7 @@ def main():
     faulthandler.dump_traceback_later(float(os.environ.get("VERIF_WATCHDOG", 0) or (deadline * 3 + 90)), exit=True)
     rec = core.set_recorder(core.Recorder(prop))
     cfg = core.Cfg(prop, tier, seed, shard, nshards, deadline)
+    rec.arm("interpreter:python -O (asserts stripped)" if sys.flags.optimize else "interpreter:default")
     from . import coverage
 
     cov_on = coverage.start(load.REPO)
